@@ -61,3 +61,7 @@ add("C14", "c14", "exploration", 500, 8000,
     assumptions=["sequential histories here; the concurrent part of the immutable-tags claim is exercised by the C08 workloads (ledger invariant under -race)",
                  "child descriptors are truthful about media types (a descriptor whose media type disagrees with the stored manifest is outside the generated domain)",
                  "subjects are not part of the closure (a subject may dangle from the start)"])
+
+add("C15", "c15", "exploration", 300, 6000,
+    assumptions=["members are ocimem registries (their own semantics are C02's business); expected union results are computed from the members' own answers",
+                 "answer order under the concurrent policy is steered with a delay wrapper (exact schedules are C16's business)"])
